@@ -1,6 +1,7 @@
 package main
 
 import (
+	"bytes"
 	"fmt"
 
 	"github.com/libsv/go-bt/v2"
@@ -349,6 +350,46 @@ func init() {
 						n++
 						if c.Case(n) {
 							judge(c, &c07Input{Unlock: u, Lock: l, Flags: fl, Mode: m, Dbg: d, Ctx: defaultCtx(), Src: "contexts"})
+						}
+					}
+				}
+			}
+		}
+		c.Phase("limits-with-debuggers") // scripts, pushes, operation counts and stack depths on both sides of the limits of the two eras, under every debugger and context mode (refusals while the execution is being set up included)
+		{
+			n := uint64(0)
+			rep := func(b byte, k int) []byte { return bytes.Repeat([]byte{b}, k) }
+			push := func(k int) []byte { // one push of k bytes
+				switch {
+				case k <= 75:
+					return append([]byte{byte(k)}, rep(0x11, k)...)
+				case k <= 255:
+					return append([]byte{0x4c, byte(k)}, rep(0x11, k)...)
+				default:
+					return append([]byte{0x4d, byte(k), byte(k >> 8)}, rep(0x11, k)...)
+				}
+			}
+			var pairs [][2][]byte
+			for _, k := range []int{9999, 10000, 10001, 20000} {
+				pairs = append(pairs, [2][]byte{{0x51}, rep(0x61, k)}, [2][]byte{rep(0x00, k), {0x51}}, [2][]byte{rep(0x51, k), rep(0x61, k)})
+			}
+			for _, k := range []int{520, 521} {
+				pairs = append(pairs, [2][]byte{push(k), {0x75, 0x51}}, [2][]byte{{0x51}, append(push(k), 0x75)})
+			}
+			for _, k := range []int{200, 201, 500, 501} {
+				pairs = append(pairs, [2][]byte{{0x51}, rep(0x61, k)}, [2][]byte{{}, append(rep(0x51, 2*k), 0x51)})
+			}
+			for _, pr := range pairs {
+				for _, m := range c07Modes {
+					for _, d := range []string{"none", "recording", "default", "accessors"} {
+						for _, fl := range []uint32{0, uint32(scriptflag.UTXOAfterGenesis), uint32(scriptflag.Bip16 | scriptflag.VerifyCleanStack), uint32(scriptflag.VerifyCleanStack), uint32(scriptflag.VerifySigPushOnly)} {
+							n++
+							if refusedAtSetup := fl&uint32(scriptflag.UTXOAfterGenesis) == 0 && (len(pr[0]) > 10000 || len(pr[1]) > 10000); d != "none" && len(pr[0])+len(pr[1]) > 3000 && !refusedAtSetup {
+								continue // a snapshot (and a rendering of the remaining script) per step of a program of thousands of steps is the harness's cost, not the library's
+							}
+							if c.Case(n) {
+								judge(c, &c07Input{Unlock: pr[0], Lock: pr[1], Flags: fl, Mode: m, Dbg: d, Ctx: defaultCtx(), Src: "limits-with-debuggers"})
+							}
 						}
 					}
 				}
